@@ -4,11 +4,13 @@ import (
 	"bufio"
 	"crypto/sha256"
 	"encoding/hex"
+	"fmt"
 	"io"
 	"net"
 	"net/http"
 	"sync"
 	"sync/atomic"
+	"time"
 )
 
 // RawHandler returns the exact bytes the origin writes for a request and whether it closes
@@ -71,6 +73,17 @@ func (o *RawOrigin) serveConn(c net.Conn) {
 		rec.Done = Now()
 		o.mu.Unlock()
 		if werr != nil || closeAfter || req.Close {
+			// Lingering close, as real servers do: closing a socket that still has unread input makes the
+			// kernel send a RST, which can destroy response bytes the peer has not read yet. Half-close,
+			// drain what the peer still sends (noting it), then close.
+			if tc, ok := c.(*net.TCPConn); ok {
+				tc.CloseWrite()
+			}
+			c.SetReadDeadline(time.Now().Add(500 * time.Millisecond))
+			extra, _ := io.Copy(io.Discard, br)
+			if extra > 0 {
+				rec.AppendNote(fmt.Sprintf(";extra-bytes-after-request:%d", extra))
+			}
 			return
 		}
 	}
